@@ -12,6 +12,7 @@ import tempfile
 sys.path.insert(0, os.path.dirname(os.path.dirname(os.path.abspath(__file__))))
 import cases  # noqa: E402
 import common  # noqa: E402
+import layout  # noqa: E402
 import lexer  # noqa: E402
 import pipeline  # noqa: E402
 import proj  # noqa: E402
@@ -20,9 +21,39 @@ import tlc  # noqa: E402
 PID = "C01"
 
 
-def classify(v):
-    """Spec-side classes of analysed deviations (none open for C01 at the moment)."""
-    return ""
+def classify_rejections(rejected):
+    """Spec-side classes of analysed deviations: IfaceTrace!RejectClass names the class from the token sequence the
+    spec derived; the harness then confirms the analysis (the same file with `char` for `unsigned char` in the
+    instantiation lists parses to the expected tree) - otherwise the rejection has another cause and stays unclassified."""
+    if not rejected:
+        return {}
+    batch = [{"id": "r%d" % k, "toks": c["toks"], "tree": [], "op": "rejected", "base": [], "i": 0, "x": 0, "groups": []}
+             for k, (c, v) in enumerate(rejected)]
+    fd, path = tempfile.mkstemp(prefix="ifacetrace_", suffix=".json")
+    try:
+        with os.fdopen(fd, "w") as f:
+            json.dump(batch, f)
+        r = tlc.run("IfaceTrace", "IfaceTrace.cfg", env={"TRACE_FILE": path}, timeout=900)
+    finally:
+        os.unlink(path)
+    verdicts = {t[1]: t[2] for t in r.by_tag("VERDICT")}
+    out = {}
+    for k, (c, v) in enumerate(rejected):
+        cls = verdicts.get("r%d" % k, "").partition("/")[2]
+        if cls == "MultiWordBasicTypeInInstantiationList":
+            toks, depth, keep = c["toks"], 0, []
+            for i, t in enumerate(toks):
+                if t == "{" and i and toks[i - 1] == "=":
+                    depth += 1
+                elif t == "}" and depth:
+                    depth -= 1
+                if depth and t == "unsigned" and i + 1 < len(toks) and toks[i + 1] == "char":
+                    continue
+                keep.append(t)
+            if pipeline.parse_text(layout.render(keep))[0] != "ok":
+                cls = ""
+        out[id(c)] = cls
+    return out
 
 
 def fixture_batch():
@@ -89,12 +120,17 @@ def main():
         rep.count("states", max(r.distinct, r.generated))
         rep.count("transitions", r.generated)
         allcases += cs
+    # witnesses of the recorded findings are replayed on every run (they are derivations of the thorough universes)
+    for f in common.load_findings()["findings"]:
+        if f["property"] == PID and f.get("status", "open") == "open" and "case" in f:
+            allcases.append({"origin": "finding:" + f["id"], "toks": f["case"]["toks"], "tree": f["case"]["tree"]})
     verdicts = common.pmap(pipeline.c01_case, allcases, chunksize=32)
     distinct = set()
+    classes = classify_rejections([(c, v) for c, v in zip(allcases, verdicts) if v["clause"] == "wellformed-input-rejected"])
     for c, v in zip(allcases, verdicts):
         distinct.add(tuple(c["toks"]))
         if v["clause"]:
-            rep.violation(v["clause"], classify(v),
+            rep.violation(v["clause"], classes.get(id(c), ""),
                           {"origin": v["origin"], "text": v["text"], "toks": c["toks"], "expected_tree": c["tree"],
                            "detail": v["detail"]})
     rep.count("traces_validated_against_impl", len(allcases))
